@@ -30,6 +30,16 @@ func limCase(i int) {
 	e.u16(n[1])
 	e.u16(n[2])
 	qn := randNameLabels()
+	if rng.Intn(5) == 0 { // a name of the maximal size (255 octets on the wire) as owner of every record
+		qn = nil
+		for _, ll := range []int{63, 63, 63, 61} {
+			lb := make([]byte, ll)
+			for j := range lb {
+				lb[j] = byte('a' + rng.Intn(26))
+			}
+			qn = append(qn, string(lb))
+		}
+	}
 	if nq == 1 {
 		e.name(qn, false)
 		e.u16(16)
